@@ -49,6 +49,7 @@ type Profile struct {
 	Integrated int
 	SrcMode    string // honest | forked | fork-later
 	ForkAt     int
+	ForkSize   int // >0: the forked source publishes this (not larger) tree size
 
 	Fault     map[string]int
 	Cancels   int
@@ -252,9 +253,16 @@ func (w *World) Init(s *kernel.Sim) {
 		}
 	}
 	p.SrcMode = "honest"
-	if p.Integrated > 0 && t.Chance(1, 5) {
+	forkOdds := 5
+	if p.DestKind == "full" && p.Integrated == p.N0 {
+		forkOdds = 2 // a complete mirror meeting a rewritten source: the gate is all that stands between them
+	}
+	if p.Integrated > 0 && t.Chance(1, forkOdds) {
 		p.SrcMode = "forked"
 		p.ForkAt = t.Range(0, p.Integrated-1)
+		if t.Chance(1, 3) {
+			p.ForkSize = t.Range(p.ForkAt+1, p.Integrated) // the rewritten log is no larger than the destination
+		}
 	} else if t.Chance(1, 6) {
 		p.SrcMode = "fork-later"
 	}
@@ -321,7 +329,7 @@ func (w *World) build() {
 	}
 	w.verifiedMax = w.initStored
 	if p.SrcMode == "forked" {
-		w.fork(p.ForkAt)
+		w.fork(p.ForkAt, p.ForkSize)
 	}
 	s.Probe("dest.init." + p.DestKind)
 	if p.Integrated < w.initStored {
@@ -346,9 +354,9 @@ func (w *World) build() {
 	w.opts = core.OptionsFromConfig(cfg)
 	w.opts.StartDelay = p.StartDelay
 
-	s.Logf("profile id=%s mode=%s cont=%v batch=%d fetch=%d submit=%d chan=%d start=%d delay=%v key=%s n0=%d growth=%d mix=%+v dest=%s stored=%v integrated=%d src=%s forkAt=%d faults=%s cancels=%d lost=%d crashes=%d restarts=%d budget=%d",
+	s.Logf("profile id=%s mode=%s cont=%v batch=%d fetch=%d submit=%d chan=%d start=%d delay=%v key=%s n0=%d growth=%d mix=%+v dest=%s stored=%v integrated=%d src=%s forkAt=%d forkSize=%d faults=%s cancels=%d lost=%d crashes=%d restarts=%d budget=%d",
 		p.IDFunc, p.RunMode, p.Continuous, p.BatchSize, p.Fetchers, p.Submitters, p.ChannelSize, p.StartIndex, p.StartDelay, key.Name, p.N0, p.Growth, p.Mix,
-		p.DestKind, p.Stored, p.Integrated, p.SrcMode, p.ForkAt, fmtFaults(p.Fault), p.Cancels, p.Lost, p.Crashes, p.Restarts, p.Budget)
+		p.DestKind, p.Stored, p.Integrated, p.SrcMode, p.ForkAt, p.ForkSize, fmtFaults(p.Fault), p.Cancels, p.Lost, p.Crashes, p.Restarts, p.Budget)
 	if !s.Timed { // timed mode starts the controller in TimedRun, once TimedDecide is installed
 		w.startIncarnation("initial")
 	}
@@ -378,7 +386,8 @@ func (w *World) prepopIdentity(idx int64, e *srcEntry) []byte {
 }
 
 // fork switches the source to a history that shares only the first `at` entries with the honest one.
-func (w *World) fork(at int) {
+// size > 0 also rewinds the published size (a rewritten log need not be larger than what the mirror holds).
+func (w *World) fork(at, size int) {
 	b := &history{Name: "B"}
 	for i, e := range w.src.Honest.Entries {
 		if i < at {
@@ -388,8 +397,14 @@ func (w *World) fork(at int) {
 		b.add(w.pki.genEntry(w.s.T, w.prof.Mix, "B", i, nil))
 	}
 	w.src.Hist, w.src.Forked, w.src.ForkAt = b, true, at
+	if size > at && size < w.src.Size {
+		w.src.Size = size
+	}
 	w.s.Logf("source forks at index %d (size %d)", at, w.src.Size)
 	w.s.Probe("source.forked")
+	if uint64(w.src.Size) <= w.dst.RootSize {
+		w.s.Probe("source.forked.not-larger-than-destination")
+	}
 }
 
 // startIncarnation builds a fresh controller the way migrillian's main does and runs it.
@@ -784,7 +799,11 @@ func (w *World) Options(s *kernel.Sim) []kernel.Option {
 		}})
 		if w.prof.SrcMode == "fork-later" && !w.src.Forked && w.dst.RootSize >= 1 {
 			opts = append(opts, kernel.Option{Key: "source forks", Weight: 6, Apply: func() {
-				w.fork(s.T.Range(0, int(w.dst.RootSize)-1))
+				at, size := s.T.Range(0, int(w.dst.RootSize)-1), 0
+				if s.T.Chance(1, 3) {
+					size = s.T.Range(at+1, int(w.dst.RootSize))
+				}
+				w.fork(at, size)
 			}})
 		}
 	}
